@@ -76,6 +76,7 @@ class ProgressProbe:
         self.budget: int | None = None
         self.on_before: Callable | None = None
         self.on_after: Callable | None = None
+        self.finder_calls: set[int] = set()
 
     def install(self, rb: Any) -> None:
         n = 0
@@ -99,6 +100,8 @@ class ProgressProbe:
 
     def _after(self, tok: Any, ret: Any, impl: Any, *a: Any, **k: Any) -> None:
         self.inside = False
+        if getattr(impl, "root_finder", None) is not None:
+            self.finder_calls.add(self.calls)  # coverage probe only: a jump search is active after this call
         if self.on_after is not None:
             self.on_after(impl)
 
@@ -177,6 +180,7 @@ def run_incarnation(
             out.error_site = sut_site(e)
         out.worlds = disk.worlds
         out.progress_calls = probe.calls
+        out.finder_calls = set(probe.finder_calls)  # type: ignore[attr-defined]
         out.fs_points = disk.n
         out.opcount = dict(disk.opcount)
         out.fired = dict(disk.fired)  # type: ignore[attr-defined]
